@@ -8,7 +8,6 @@ raise for a reason the property does not list (e.g. a document that parses but f
 skipped (counted as trivial), never flagged.
 """
 import base64
-import copy
 import json
 import os
 
@@ -87,15 +86,15 @@ _CLASSES = {"string": "StringField", "int": "IntField", "float": "FloatField", "
 class Built:
     """one materialisation of a top-level spec {"defs": {...}, "files": {...}, "dirs": [...], "root": schema-spec}"""
 
-    def __init__(self, top, tmp):
+    def __init__(self, top, tmp, populate=True):
         import cincoconfig
         self.cc = cincoconfig
         self.top, self.tmp, self.objs = top, tmp, {}
-        for name, content in (top.get("files") or {}).items():
+        for name, content in ((top.get("files") or {}) if populate else {}).items():
             data = dec(content)
             with open(os.path.join(tmp, name), "wb") as fp:
                 fp.write(data if isinstance(data, bytes) else data.encode())
-        for name in top.get("dirs") or []:
+        for name in (top.get("dirs") or []) if populate else []:
             os.makedirs(os.path.join(tmp, name), exist_ok=True)
         self.schema = self.field(top["root"])
 
@@ -356,6 +355,8 @@ def _content(bt, fmt, doc):
         data = b"\x00\x01{{<<garbage>>\xff"
     elif mal == "empty":
         data = b""
+    elif mal == "trailing-unclosed":
+        data = data + b'\n{"unclosed": [1, '
     return data
 
 
@@ -494,18 +495,21 @@ SPECS = [
 # ------------------------------------------------------------------------------------------------------------
 def _leafs(bt, sspec, cfg, nav):
     """(nav, key, field spec, current value) of every field of the live tree, lists of configs included"""
+    is_cfg = lambda v: isinstance(v, bt.cc.Config)  # noqa: E731
     for key, fs in sspec["fields"]:
         fs = bt.resolve(fs)
         val = cfg._data.get(key)
         yield nav, key, fs, val
         if fs["t"] in ("schema", "ctype"):
-            yield from _leafs(bt, fs["schema"] if fs["t"] == "ctype" else fs, val, nav + [key])
+            if is_cfg(val):
+                yield from _leafs(bt, fs["schema"] if fs["t"] == "ctype" else fs, val, nav + [key])
         elif fs["t"] == "list" and "item" in fs and isinstance(val, list):
             ispec = bt.resolve(fs["item"])
             if ispec["t"] in ("schema", "ctype"):
                 for idx in range(min(len(val), 2)):
-                    yield from _leafs(bt, ispec["schema"] if ispec["t"] == "ctype" else ispec, val[idx],
-                                      nav + [key, idx])
+                    if is_cfg(val[idx]):
+                        yield from _leafs(bt, ispec["schema"] if ispec["t"] == "ctype" else ispec, val[idx],
+                                          nav + [key, idx])
 
 
 def setup_variants(bt, top):
@@ -675,7 +679,8 @@ def load_ops(bt, top):
     if not tree:
         return
     for fmt in FORMATS:
-        mals = ["cut-half", "cut-last", "cut-third", "undecodable", "undecodable-mid", "garbage", "empty"]
+        mals = ["cut-half", "cut-last", "cut-third", "undecodable", "undecodable-mid", "garbage", "empty",
+                "trailing-unclosed"]
         for mal in mals:
             yield ob, "parse:%s:%s" % (fmt, mal), {"op": "loads", "fmt": fmt, "doc": {"tree": tree, "malform": mal}}, "parse"
         yield (ob.replace("loads", "load"), "parse-file:%s:cut-half" % fmt,
@@ -745,18 +750,39 @@ def _first_diff(a, b, path="root"):
     return None
 
 
-def _raised_in_includes(exc):
-    names, tb = [], exc.__traceback__
-    while tb is not None:
-        names.append(tb.tb_frame.f_code.co_name)
-        tb = tb.tb_next
-    return "_process_includes" in names and "load_tree" not in names
+def _unresolvable(bt, op):
+    """oracle of 'include file cannot be resolved', independent of where the library notices it: the include value of
+    the (parsing) main document is not a string, or names something that is not a regular file we can read, or a file
+    whose content the format rejects"""
+    def values(tree):
+        for key, val in tree.items():
+            if key in ("inc", "inc2", "inc3"):
+                yield val
+            elif isinstance(val, dict):
+                yield from values(val)
+    for name in values(dec(op["doc"]["tree"], bt.tmp)):
+        if not isinstance(name, str):
+            return True
+        path = name if os.path.isabs(name) else os.path.join(bt.tmp, name)
+        if not os.path.isfile(path):
+            return True
+        try:
+            with open(path, "rb") as fp:
+                content = fp.read()
+        except OSError:
+            return True
+        try:
+            bt.cc.ConfigFormat.get(op["fmt"]).loads(bt.schema(), content)
+        except Exception:  # pylint: disable=broad-except
+            return True
+    return False
 
 
-def check(top, setup, op, scope, tmp):
+def check(top, setup, op, scope, tmp, populate=True):
     """build a fresh schema + configuration, reach the prior state, run the failing op, evaluate the clause.
-    returns (status, detail): 'skip' (op did not fail in the listed way) | 'ok' | 'fail'"""
-    bt = Built(top, tmp)
+    returns (status, detail): 'skip' (op did not fail in the listed way) | 'ok' | 'fail'
+    (populate=False: the fixture files of the spec already exist in tmp)"""
+    bt = Built(top, tmp, populate)
     root = bt.schema()
     for sop in setup:
         exc = apply_op(bt, root, sop)
@@ -772,10 +798,8 @@ def check(top, setup, op, scope, tmp):
         return "skip", "operation was accepted"
     if scope == "assign" and not isinstance(exc, ValueError):
         return "skip", "out-of-scope exception %s" % type(exc).__name__
-    if scope == "include" and not _raised_in_includes(exc):
-        # the include could not be resolved <=> the exception comes out of Config._process_includes (validation of
-        # the file name, opening or parsing the included file), not out of load_tree
-        return "skip", "exception %s not raised while resolving includes" % type(exc).__name__
+    if scope == "include" and not _unresolvable(bt, op):
+        return "skip", "the include file is resolvable here (e.g. unreadable files do not exist for root)"
     after = snapshot(root)
     diff = _first_diff(before, after)
     if diff is None and op["op"] == "ctor":
@@ -799,8 +823,8 @@ def rac(tier, seed):
              "non-trivial iff the real operation raised in one of the listed ways; distinct = (schema, state, witness "
              "class, op)",
         bound="depth <= 3 (+ list items), <= 2 items per list explored, value pools: min-1/max+1/len+-1/wrong type/"
-              "None/validator per option, 5 formats x 7 malformations + wrong XML root, include missing/dir/dangling/"
-              "unreadable/malformed/wrong-type at depth 1-3",
+              "None/validator per option, 5 formats x 8 malformations (only those the real parser rejects count) + wrong XML root, include missing/dir/dangling/"
+              "unreadable (skipped when run as root)/malformed/wrong-type at depth 1-3",
         tier=tier, seed=seed)
     with sandbox() as tmp:
         n = 0
@@ -818,9 +842,7 @@ def rac(tier, seed):
                 cands += list(load_ops(bt0, top))
                 for ob, wk, op, scope in cands:
                     n += 1
-                    case_dir = os.path.join(tmp, "c%d" % n)
-                    os.makedirs(case_dir)
-                    status, detail = check(top, setup, op, scope, case_dir)
+                    status, detail = check(top, setup, op, scope, sub, populate=False)
                     key = (name, sname, wk, json.dumps(op, sort_keys=True, default=str)[:160])
                     rec.case(key=key, nontrivial=status != "skip",
                              sample={"schema": name, "state": sname, "witness": wk, "op": op, "result": status}
@@ -828,18 +850,9 @@ def rac(tier, seed):
                     if status == "fail":
                         rec.violation(obligation=ob, what=detail, witness_key=wk,
                                       replay=_replay_dict(name, top, setup, op, scope))
-                    if n % 64 == 0:
-                        _cleanup(tmp)
         if tier != "quick":
             _thorough(rec, tmp)
     return rec.result(exhaustive=False)
-
-
-def _cleanup(tmp):
-    import shutil
-    for entry in os.listdir(tmp):
-        if entry.startswith("c") and entry[1:].isdigit():
-            shutil.rmtree(os.path.join(tmp, entry), ignore_errors=True)
 
 
 def _thorough(rec, tmp):
@@ -847,7 +860,7 @@ def _thorough(rec, tmp):
     n = 0
     while not rec.out_of_time():
         name, top = SPECS[rec.rng.randrange(len(SPECS))]
-        sub = os.path.join(tmp, "t-enum")
+        sub = os.path.join(tmp, "t-enum-" + name)
         os.makedirs(sub, exist_ok=True)
         bt0 = Built(top, sub)
         variants = setup_variants(bt0, top)
@@ -860,14 +873,11 @@ def _thorough(rec, tmp):
         cands = [(ob, wk, op, "assign") for ob, wk, op in failing_ops(bt0, top, root)] + list(load_ops(bt0, top))
         for ob, wk, op, scope in rec.rng.sample(cands, min(len(cands), 150)):
             n += 1
-            case_dir = os.path.join(tmp, "c%d" % (10 ** 7 + n))
-            os.makedirs(case_dir)
-            status, detail = check(top, setup, op, scope, case_dir)
+            status, detail = check(top, setup, op, scope, sub, populate=False)
             rec.case(key=(name, "rnd", json.dumps(setup, default=str)[:120], wk, json.dumps(op, default=str)[:120]),
                      nontrivial=status != "skip")
             if status == "fail":
                 rec.violation(obligation=ob, what=detail, witness_key=wk, replay=_replay_dict(name, top, setup, op, scope))
-        _cleanup(tmp)
 
 
 def replay(case):
